@@ -23,6 +23,8 @@ func init() {
 	})
 }
 
+var longLocks = map[string]string{}
+
 var shortLocks = map[string]string{
 	"responseMut": "critical sections contain only map operations and capacity-bounded sends (C09-W1/W3)",
 	"mu":          "critical sections contain no blocking operation (C09-W1)",
@@ -42,6 +44,27 @@ func runC08(l *core.Ledger) {
 	eps := findEntryPoints(l, r, "C08-B1")
 	if !l.Floor("C08-B1", len(eps), 6, "context-taking entry points") {
 		return
+	}
+	// a mutex is short only if nothing that waits for a peer, a timer or the transport runs
+	// under it anywhere in the runtime (the table above names the expectation; this re-derives it)
+	longLocks = map[string]string{}
+	heldOps, _ := opsUnderLocks(allFuncs(l.Prog, r.pkg))
+	for _, ho := range heldOps {
+		switch ho.op.kind {
+		case "lock":
+			continue
+		case "send":
+			if isResponseChan(ho.op.chanT) {
+				continue
+			}
+		}
+		for _, h := range ho.held {
+			if _, short := shortLocks[h.Field]; short {
+				if _, seen := longLocks[h.Field]; !seen {
+					longLocks[h.Field] = ho.op.desc + " in " + ho.via
+				}
+			}
+		}
 	}
 	nops := 0
 	for _, ep := range eps {
@@ -94,6 +117,7 @@ func runC08(l *core.Ledger) {
 	}
 	c08B3(l, r)
 	c08B4(l, r, eps)
+	c08B4b(l, r)
 }
 
 // c08Walk checks every blocking op reachable from the frame's function.
@@ -129,8 +153,10 @@ func c08Walk(l *core.Ledger, rule, rootKey string, root *frame, ctx ssa.Value) i
 				case "recv":
 					l.Bad(rule, key, pos, "bare channel receive on a call path ("+op.desc+"): not bounded by the call's context — it returns only when the node's sender gets to this request")
 				case "lock":
-					if why, ok := shortLocks[op.lock]; ok {
+					if why, ok := shortLocks[op.lock]; ok && longLocks[op.lock] == "" {
 						l.OK(rule, key, pos, "acquires "+op.lock+": "+why)
+					} else if ok {
+						l.Bad(rule, key, pos, "a call path acquires "+op.lock+", which another goroutine can hold while it waits ("+longLocks[op.lock]+"): the call ignores its context for as long as that lasts")
 					} else {
 						l.Bad(rule, key, pos, "a call path acquires "+op.lock+", which is held across stream operations")
 					}
@@ -381,4 +407,118 @@ func c08B4(l *core.Ledger, r *rt, eps []*entryPoint) {
 			l.Bad("C08-B4", key, ep.fn.Pos(), "no return inside a ctx.Done() case: the call cannot end on context expiry")
 		}
 	}
+}
+
+// c08B4b: the error a caller is answered with because *its request's own
+// context* ended is that context's Err() itself. The per-node layer answers
+// such requests locally (enqueue's req.ctx.Done() case, sendMsg's test before
+// the write); RPCCall hands that answer to the caller, the reply loops list it.
+// Wrapped into something else (a status error, a formatted error)
+// errors.Is(err, ctx.Err()) no longer holds for it.
+func c08B4b(l *core.Ledger, r *rt) {
+	isReqCtx := func(v ssa.Value) bool {
+		return sx.All(sx.Origins(v), func(o sx.Origin) bool {
+			return o.Kind == sx.KField && o.Field != nil && o.Field.Name() == "ctx" && o.Field.Pkg() != nil && o.Field.Pkg().Path() == core.RootModule
+		})
+	}
+	isErrOf := func(v ssa.Value) bool {
+		return sx.All(sx.Origins(v), func(o sx.Origin) bool {
+			c, ok := o.V.(*ssa.Call)
+			return o.Kind == sx.KCall && ok && c.Call.IsInvoke() && c.Call.Method.Name() == "Err" && isReqCtx(c.Call.Value)
+		})
+	}
+	n := 0
+	for _, f := range allFuncs(l.Prog, r.pkg) {
+		f := f
+		if f.Signature.Recv() == nil || !isNamed(f.Signature.Recv().Type(), core.RootModule, "channel") {
+			continue
+		}
+		// edges on which the request's context is known to have ended
+		var ended []sx.Edge
+		sx.AllInstrs(f, func(_ sx.Node, in ssa.Instruction) {
+			switch x := in.(type) {
+			case *ssa.Select:
+				for i, st := range x.States {
+					if st.Dir != types.RecvOnly {
+						continue
+					}
+					if cv, isDone := isDoneOf(st.Chan); isDone && isReqCtx(cv) {
+						if e, ok := selectCaseEdge(x, i); ok {
+							ended = append(ended, e)
+						}
+					}
+				}
+			case *ssa.If:
+				m := func(o sx.Origin) bool {
+					c, ok := o.V.(*ssa.Call)
+					return o.Kind == sx.KCall && ok && c.Call.IsInvoke() && c.Call.Method.Name() == "Err" && isReqCtx(c.Call.Value)
+				}
+				if isErrNonNil(x, m) != 0 {
+					ended = append(ended, errEdge(x, m, true))
+				}
+			}
+		})
+		if len(ended) == 0 {
+			continue
+		}
+		sx.AllInstrs(f, func(nd sx.Node, in ssa.Instruction) {
+			if nd.B == f.Recover || !edgesDominate(f, ended, nd) {
+				return
+			}
+			switch x := in.(type) {
+			case *ssa.Call:
+				if !isRouteCall(&x.Call) {
+					return
+				}
+				lit, ok := structLiteral(x.Call.Args[2])
+				if !ok || lit["err"] == nil {
+					return
+				}
+				n++
+				l.Check(isErrOf(lit["err"]), "C08-B4", fmt.Sprintf("%s/ctx-answer%d", fnKey(f), n), x.Pos(), "answers with req.ctx.Err()", "a request whose own context has ended is answered with "+sx.OriginsString(sx.Origins(lit["err"]))+" instead of that context's Err(): the caller's error no longer matches ctx.Err() under errors.Is")
+			case *ssa.Return:
+				for i, res := range x.Results {
+					if !isErrorType(f.Signature.Results().At(i).Type()) {
+						continue
+					}
+					if c, isC := res.(*ssa.Const); isC && c.IsNil() {
+						continue
+					}
+					res = reachingStoreInBlock(res)
+					if c, isC := res.(*ssa.Const); isC && c.IsNil() {
+						continue
+					}
+					n++
+					l.Check(isErrOf(res), "C08-B4", fmt.Sprintf("%s/ctx-answer%d", fnKey(f), n), x.Pos(), "returns req.ctx.Err()", "a request whose own context has ended is failed with "+sx.OriginsString(sx.Origins(res))+" instead of that context's Err(): the caller's error no longer matches ctx.Err() under errors.Is")
+				}
+			}
+		})
+	}
+	l.Floor("C08-B4", n, 1, "local answers to requests whose context has ended")
+}
+
+// reachingStoreInBlock: a load of a local slot (a named result spilled around a
+// defer) that is stored earlier in the same block stands for the stored value.
+func reachingStoreInBlock(v ssa.Value) ssa.Value {
+	ld, ok := v.(*ssa.UnOp)
+	if !ok || ld.Op != token.MUL {
+		return v
+	}
+	al, ok := ld.X.(*ssa.Alloc)
+	if !ok {
+		return v
+	}
+	var last ssa.Value
+	for _, in := range ld.Block().Instrs {
+		if in == ssa.Instruction(ld) {
+			break
+		}
+		if st, ok := in.(*ssa.Store); ok && st.Addr == ssa.Value(al) {
+			last = st.Val
+		}
+	}
+	if last != nil {
+		return last
+	}
+	return v
 }
